@@ -30,13 +30,15 @@ class Mat:
         return hash(self.tag)
 
 
-VAL = {"i0": 0, "i3": 3, "ineg": -2, "f25": 2.5, "true": True}
+VAL = {"i0": 0, "i3": 3, "ineg": -2, "f25": 2.5, "f1234": 12.34, "true": True}
 BIN = {"add": operator.add, "sub": operator.sub, "mul": operator.mul, "truediv": operator.truediv, "floordiv": operator.floordiv,
        "mod": operator.mod, "divmod": divmod, "pow": operator.pow, "lshift": operator.lshift, "rshift": operator.rshift,
        "and": operator.and_, "or": operator.or_, "xor": operator.xor, "matmul": operator.matmul,
        "lt": operator.lt, "le": operator.le, "eq": operator.eq, "ne": operator.ne, "gt": operator.gt, "ge": operator.ge}
 UN = {"neg": operator.neg, "pos": operator.pos, "abs": abs, "invert": operator.invert, "round": round, "trunc": math.trunc,
-      "floor": math.floor, "ceil": math.ceil}
+      "floor": math.floor, "ceil": math.ceil,
+      "round0": lambda v: round(v, 0), "round1": lambda v: round(v, 1), "roundneg": lambda v: round(v, -1)}
+BIN["pow3"] = lambda a, b: pow(a, b, 5)
 
 
 def val(tok):
